@@ -59,6 +59,39 @@ def gen(tier, rng, chk=None, d=None):
     return cases
 
 
+LABEL_RX = re.compile(r'^(?:0x)?[0-9a-f]+ (?:PROC |FUNC )?([A-Za-z][A-Za-z0-9_]*) +\(0 bytes\)$')
+
+
+def label_cases(chk, exe, d):
+    """every label the compiler generates that has the shape of an X identifier is a name a user may give to a procedure: compile a few
+    base programs, read the labels off the -S listing, and build programs that define a function of exactly that name"""
+    X = xlib
+    def base(extra=None, order=0):
+        clamp = X.proc(True, [('val', 'q')], ['t'], X.seq([X.ass(X.var('t'), X.bi('+', X.var('q'), X.num(1))), X.iff(X.bi('<', X.var('q'), X.num(3)), X.ret(X.var('t')), X.skip()),
+                                                           X.ret(X.bi('+', X.var('t'), X.num(20)))]))
+        show = X.proc(False, [('val', 'q')], ['u'], X.seq([X.ass(X.var('u'), X.bi('+', X.var('q'), X.num(48))), X.putc(X.var('u'))]))
+        body = [X.ass(X.var('i'), X.num(2)), X.callst(X.call('show', [X.num(3)])), X.putc(X.bi('+', X.num(60), X.call('clamp', [X.var('i')])))]
+        procs = {'clamp': clamp, 'show': show}
+        if extra:
+            procs[extra] = X.proc(True, [('val', 'q')], [], X.iff(X.bi('<', X.var('q'), X.num(3)), X.ret(X.num(30)), X.ret(X.num(40))))
+            body += [X.putc(X.bi('+', X.num(40), X.call(extra, [X.num(1)]))), X.callst(X.call('show', [X.num(4)])), X.exit_(X.bi('+', X.call('clamp', [X.num(7)]), X.call(extra, [X.num(5)])))]
+        else:
+            body += [X.exit_(X.call('clamp', [X.num(7)]))]
+        procs['main'] = X.proc(False, [], ['i'], X.seq(body))
+        names = list(procs) if order == 0 else ([extra] if extra else []) + ['main', 'show', 'clamp']
+        return X.program(['g'], {'z': 2}, procs, {}, {}, names)
+    P0 = base()
+    r0 = xlib.run_cases(exe, [{'id': 'labelbase', 'src': xlib.src_of(P0), 'input': []}], d, tag="c01lab", flags="l")[0]
+    labels = set()
+    for line in r0.get('listing', '').split("\n"):
+        m = LABEL_RX.match(line.strip())
+        if m:
+            labels.add(m.group(1))
+    cand = sorted(labels - {'main', 'clamp', 'show'})
+    chk.set("generated_labels_shaped_like_identifiers", cand)
+    return [('genlabel:%s:%d' % (nm, order), base(nm, order)) for nm in cand[:12] for order in (0, 1)]
+
+
 def judge(chk, cases, res, verd, pid=PID):
     cnt = collections.Counter()
     ok = 0
@@ -143,6 +176,7 @@ def run(tier, replay=None):
         exe = vlib.build_cxx("x_case", ["x_case.cpp"])
         rng = vlib.rng(1)
         cases = gen(tier, rng, chk, d)
+        cases += xlib.make_cases(label_cases(chk, exe, d), rng)
         res = xlib.run_cases(exe, cases, d, flags="o")
         peephole(chk, cases, res, d)
         recs = [{'id': c['id'], 'prog': c['prog'],
